@@ -146,7 +146,7 @@ def record_links(records):
             # Record starts a new pulse
             previous_record[i] = NO_RECORD_LINK
 
-        elif r["time"] == expected_next_start[ch]:
+        elif last_i != NO_RECORD_LINK and r["time"] == expected_next_start[ch]:
             # Continuing record.
             previous_record[i] = last_i
             next_record[last_i] = i
